@@ -1065,6 +1065,23 @@ func (e *Enc) evalCallSpec(x SCall, ctx *specCtx) *Val {
 			st = ctx.old
 		}
 		return mathBool(e.heldTerm(st, mu))
+	case "blk":
+		// the object (backing array / map / pointee) a slice, map or pointer value refers to
+		v := e.evalSpec(x.Args[0], ctx)
+		return mathInt(v.L[0])
+	case "float32", "float64":
+		v := e.evalSpec(x.Args[0], ctx)
+		T := types.Typ[types.Float32]
+		if x.Fn == "float64" {
+			T = types.Typ[types.Float64]
+		}
+		if v.T != nil && isFloat(v.T) {
+			if intBitsFloat(v.T) == intBitsFloat(T) {
+				return &Val{T: T, L: v.L}
+			}
+			return &Val{T: T, L: []string{"(fconv" + fmt.Sprint(intBitsFloat(T)) + " " + v.L[0] + ")"}}
+		}
+		return &Val{T: T, L: []string{"(i2f " + v.L[0] + ")"}}
 	case "fresh":
 		v := e.evalSpec(x.Args[0], ctx)
 		return mathBool("(> " + v.L[0] + " " + ctx.old.alloc + ")")
@@ -1123,6 +1140,50 @@ func (e *Enc) evalCallSpec(x SCall, ctx *specCtx) *Val {
 	// spec function?
 	if sf, ok := e.DB.Specs[x.Fn]; ok {
 		return e.callSpecFunc(sf, x, ctx)
+	}
+	// application of a function-typed value (e.g. the predicate parameter of
+	// slices.DeleteFunc): if it is a closure literal whose contract defines its result
+	// (`ensures result <==> E` / `result == E`), the application is E
+	if x.Recv == nil {
+		var fv *Val
+		if v, ok := ctx.bound[x.Fn]; ok {
+			fv = v
+		} else if en, ok := ctx.env[x.Fn]; ok {
+			fv = e.entryValue(en, ctx)
+		} else if ctx.resolve != nil {
+			if en, ok := ctx.resolve(x.Fn); ok {
+				fv = e.entryValue(en, ctx)
+			}
+		}
+		if fv != nil && fv.Closure != nil && fv.Closure.Fn != nil {
+			cf := fv.Closure.Fn
+			if cc := e.DB.Funcs[FuncKey(cf)]; cc != nil {
+				for _, en := range cc.Ensures {
+					b, ok := en.E.(SBinary)
+					if !ok || (b.Op != "<==>" && b.Op != "==") {
+						continue
+					}
+					if id, ok := b.X.(SIdent); !ok || id.Name != "result" {
+						continue
+					}
+					env := map[string]envEntry{}
+					for i, p := range cf.Params {
+						if i < len(x.Args) {
+							env[p.Name()] = envEntry{V: e.evalSpec(x.Args[i], ctx)}
+						}
+					}
+					for i, v := range cf.FreeVars {
+						if i < len(fv.Closure.Bindings) {
+							_, isPtr := v.Type().Underlying().(*types.Pointer)
+							env[v.Name()] = envEntry{V: fv.Closure.Bindings[i], IsAddr: isPtr}
+						}
+					}
+					c2 := &specCtx{env: env, st: ctx.st, old: ctx.old, pkg: cc.Pkg, bound: ctx.bound, inOld: ctx.inOld}
+					return e.evalSpec(b.Y, c2)
+				}
+			}
+			e.fail("function value %s applied in a specification: its closure %s needs a contract with `ensures result <==> <expr>`", x.Fn, ShortKey(FuncKey(cf)))
+		}
 	}
 	// pure program function used in a spec: uninterpreted function of its arguments
 	return e.callPureInSpec(x, ctx)
